@@ -280,9 +280,95 @@ fn check(ctx: &Ctx, c: &Case) -> PResult {
             }
         }
     }
+    // joint forgeries on one round of the honest twin whose residuals cancel if
+    // the widget gave two of its four identities the same weight: (x step, y
+    // step) off by (e, -e) and (helper wire, x step) off by (e, -e), the
+    // accumulator chain continued from the forged point. The reference
+    // evaluator rejects them (two components of one row); the REAL prover must
+    // reject them too.
+    if canonical && (c.prove || c.seed % 16 == 0) {
+        if let Some(d) = naf(si) {
+            let twin = Gad::build(vec![Op::FixedSeam { s: Fe(s), gen: Fe(k), digits: d.to_vec() }], false)
+                .map_err(|e| Fail::new("fixed-base-seam-error", format!("{e:?}")))?;
+            let rows: Vec<usize> = (0..twin.layout.rows.len()).filter(|i| twin.layout.rows[*i].sel[spec_q_fixed()] != F::zero()).collect();
+            if rows.len() >= 8 {
+                for kind in 0..2u8 {
+                    let ri = rows[c.pos as usize % (rows.len() - 2)];
+                    let mut asg = twin.wit.clone();
+                    let e = c.s.0 + F::one();
+                    if forge_round(&twin, &mut asg, ri, kind, e).is_none() {
+                        continue;
+                    }
+                    // continue the chain from the forged accumulators
+                    for r in rows.iter().filter(|r| **r > ri) {
+                        if forge_round(&twin, &mut asg, *r, 2, F::zero()).is_none() {
+                            break;
+                        }
+                    }
+                    let unsat = twin.eval(&asg);
+                    ctx.add_evals(1);
+                    ctx.label(if kind == 0 { "joint forgery: x and y steps off by (e, -e)" } else { "joint forgery: helper wire and x step off by (e, -e)" });
+                    if unsat.is_empty() {
+                        return Err(Fail::new("fixed-base-forged-wire-accepted", "a joint forgery of one round satisfies every row"));
+                    }
+                    if unsat.iter().all(|u| u.row == ri && u.family == "fixed-base") && unsat.len() == 2 {
+                        gadget::cross_check(&twin, &asg, c.seed, "fixed-base joint forgery (two identities of one round off by cancelling amounts)")?;
+                        ctx.label("joint forgery cross-checked with the real prover");
+                    } else {
+                        ctx.label("joint forgery: more than the intended pair broken (not cross-checked)");
+                    }
+                }
+            }
+        }
+    }
     ctx.nontrivial_json(&(c.gen, c.sclass, c.s, c.pos));
     ctx.sample(&cls, || json!({"scalar": fe_short(&s), "generator_k": fe_short(&k), "canonical": canonical}));
     Ok(())
+}
+
+fn spec_q_fixed() -> usize {
+    crate::spec::Q_FIXED
+}
+
+/// Rewrite the accumulators that fixed-base row `ri` hands to its successor.
+/// kind 0: x step + e, y step - e; kind 1: helper wire forged by e and the x
+/// step compensating; kind 2: the honest step (continuing the chain).
+fn forge_round(g: &Gad, asg: &mut [F], ri: usize, kind: u8, e: F) -> Option<()> {
+    use crate::spec::{Q_C, Q_L, Q_R};
+    let r = &g.layout.rows[ri];
+    let nx = g.layout.rows.get(ri + 1)?;
+    let (a, b, d) = (asg[r.w[0]], asg[r.w[1]], asg[r.w[3]]);
+    let d_n = asg[nx.w[3]];
+    let digit = d_n - d - d;
+    let (x_beta, y_beta, q_c) = (r.sel[Q_L], r.sel[Q_R], r.sel[Q_C]);
+    let one = F::one();
+    let mut xy = digit * q_c;
+    // residuals: helper = digit*q_c - xy ; x = a_n (1 + t) - rhs_x ; y = b_n (1 - t) - rhs_y
+    let (mut ex, mut ey) = (F::zero(), F::zero());
+    match kind {
+        0 => {
+            ex = e;
+            ey = -e;
+        }
+        1 => {
+            xy -= e; // helper residual = e
+            ex = -e;
+        }
+        _ => {
+            xy = asg[r.w[2]];
+        }
+    }
+    if kind != 2 {
+        asg[r.w[2]] = xy;
+    }
+    let y_alpha = digit.square() * (y_beta - one) + one;
+    let x_alpha = digit * x_beta;
+    let t = xy * a * b * dusk_jubjub::EDWARDS_D;
+    let a_n = (a * y_alpha + b * x_alpha + ex) * Option::<F>::from((one + t).invert())?;
+    let b_n = (b * y_alpha + a * x_alpha + ey) * Option::<F>::from((one - t).invert())?;
+    asg[nx.w[0]] = a_n;
+    asg[nx.w[1]] = b_n;
+    Some(())
 }
 
 pub fn props() -> Vec<(Box<dyn PropDyn>, u32, u32)> {
@@ -290,5 +376,5 @@ pub fn props() -> Vec<(Box<dyn PropDyn>, u32, u32)> {
 }
 
 pub fn describe(ctx: &Ctx) {
-    ctx.rule("cases: generators [k]G (k in {1, 2, random}) x scalar witnesses {0, 1, r_J-1, r_J, r_J+1, 2^252-1, q-1, random field element, small, random canonical}; signed-digit vectors through the fixed-base seam {NAF of s, binary digits, 01->1(-1) rewrite, NAF/binary of s+r_J and s+q, negated digits of r_J-s, all zero, random digits, non-zero leading digits} plus forged single wires (scalar accumulator, xy_alpha, acc_x, acc_y) on the honest twin. Oracle: entry point Ok iff s < r_J and then returned = [s]G (harness affine arithmetic) and satisfiable; through the seam any satisfied digit vector requires s canonical and the digits' point = [s]G; seam twin layout = component layout. non-trivial = every case; distinct by case");
+    ctx.rule("cases: generators [k]G (k in {1, 2, random}) x scalar witnesses {0, 1, r_J-1, r_J, r_J+1, 2^252-1, q-1, random field element, small, random canonical}; signed-digit vectors through the fixed-base seam {NAF of s, binary digits, 01->1(-1) rewrite, NAF/binary of s+r_J and s+q, negated digits of r_J-s, all zero, random digits, non-zero leading digits} plus forged single wires (scalar accumulator, xy_alpha, acc_x, acc_y) on the honest twin, and joint forgeries of one round whose two residuals cancel ((x step, y step), (helper wire, x step)) with the chain continued from the forged point - these are given to the REAL prover, which must reject them. Oracle: entry point Ok iff s < r_J and then returned = [s]G (harness affine arithmetic) and satisfiable; through the seam any satisfied digit vector requires s canonical and the digits' point = [s]G; seam twin layout = component layout. non-trivial = every case; distinct by case");
 }
